@@ -19,8 +19,12 @@ def reseed(order=0):
 def make_tableau(logic, premises, conclusion, *, group=True, rank=True, max_steps=None,
                  models=False, order=0, **extra):
     from pytableaux.proof import Tableau
-    reseed(order)
+    from .lib import get_logic
+    # importing a logic module builds example tableaux (rule class initialisation) and would consume
+    # creation serials: make sure it has happened before the schedule is (re)seeded
+    get_logic(logic)
     arg = A.arg_to_lib(premises, conclusion)
+    reseed(order)
     opts = dict(is_group_optim=group, is_rank_optim=rank, is_build_models=models)
     if max_steps is not None:
         opts['max_steps'] = max_steps
